@@ -74,8 +74,8 @@ def gen_chain(rng):
 class VSpec:
     """The flat-stream specification: every reader / writer is a list of remaining addresses (the
     concatenation of its segments) plus a consumed counter; memory is a dict over the pattern."""
-    def __init__(self, seed, descs):
-        self.seed = seed; self.mem = {}; self.dirty = set()
+    def __init__(self, seed, descs, dirty0=()):
+        self.seed = seed; self.mem = {}; self.dirty = set(dirty0); self.dirty0 = set(dirty0); self.wlog = []
         ra = [a + i for a, l, k in descs if k == 'r' for i in range(l)]
         wa = [a + i for a, l, k in descs if k == 'w' for i in range(l)]
         self.nseg = {'r': sum(1 for d in descs if d[2] == 'r'), 'w': sum(1 for d in descs if d[2] == 'w')}
@@ -83,6 +83,8 @@ class VSpec:
         self.written = set()
     def get(self, a): return self.mem.get(a, pat(self.seed, a))
     def put(self, addrs, data):
+        n = min(len(addrs), len(data))
+        if n: self.wlog.append(addrs[:n])
         for a, v in zip(addrs, data):
             self.mem[a] = v; self.dirty.add(a // PS); self.written.add(a)
     def apply(self, op):
@@ -263,9 +265,9 @@ def win_coq(ws):
 
 def case_text_v(c):
     regs = [QREGION] + list(c['regions'])
-    return 'seed=%d regions=%s queue=0 descs=%s ops=%s' % (
+    return 'seed=%d regions=%s queue=0 descs=%s dirty0=%s ops=%s' % (
         c['seed'], ','.join('%d:%d' % r for r in regs), ','.join('%d:%d:%s' % d for d in c['descs']),
-        ';'.join(op_text(o) for o in c['ops']))
+        ','.join(str(p) for p in sorted(c.get('dirty0', ()))), ';'.join(op_text(o) for o in c['ops']))
 
 def windows(seed, ranges, diffs, limit):
     """merge [a-16, a+l+16) windows (clipped by limit function) and fill with pattern patched by the observed diffs"""
@@ -294,9 +296,10 @@ def vcase_coq(c, out, with_dirty=True):
     universe = [p for b, z in regs for p in range(b // PS, (b + z) // PS)]
     init = out['init']
     exp_init = '(HOk 0 0 0)' if init == 'ok' else '(HErr %d)' % ERRCODE[ERRS.get(init.split(':')[-1], 'EBadIndex')]
-    return '(check_v %d [%s] [%s] [%s] %s [%s] [%s] [%s] [%s])' % (
+    return '(check_vd %d [%s] [%s] [%s] [%s] %s [%s] [%s] [%s] [%s])' % (
         c['seed'], '; '.join('(%d, %d)' % r for r in regs),
         '; '.join('(mkdesc %d %d %s)' % (a, l, 'true' if k == 'w' else 'false') for a, l, k in c['descs']),
+        '; '.join(str(p) for p in sorted(c.get('dirty0', ()))),
         '; '.join(op_coq(o) for o in c['ops']), exp_init,
         '; '.join(obs_coq(o) for o in out['obs']),
         win_coq(ws),
@@ -306,14 +309,17 @@ COQ_HEADER = ('From Coq Require Import List String NArith Bool.\n'
               'From FB Require Import Lib.Hex Gen.BytesDelegation Model.Transport.\n'
               'Import ListNotations.\nLocal Open Scope N_scope.\n')
 
-def gen_vcases(rng, n, writer_bias=False, maxops=25):
+def gen_vcases(rng, n, writer_bias=False, maxops=25, dirty_init=False):
     cases = []
     for _ in range(n):
         regions, descs, bad = gen_chain(rng)
         seed = rng.randrange(256)
-        c = {'seed': seed, 'regions': regions, 'descs': descs, 'bad': bad, 'ops': []}
+        allp = [p for b, z in regions for p in range(b // PS, (b + z) // PS)]
+        mode = rng.choice(['none', 'none', 'none', 'random', 'all', 'alt']) if dirty_init else 'none'
+        d0 = {'none': [], 'all': allp, 'alt': allp[rng.randrange(2)::2], 'random': [p for p in allp if rng.random() < 0.4]}[mode]
+        c = {'seed': seed, 'regions': regions, 'descs': descs, 'bad': bad, 'ops': [], 'dirty0': d0}
         if not bad:
-            spec = VSpec(seed, descs)
+            spec = VSpec(seed, descs, d0)
             c['ops'] = gen_vops(rng, spec, rng.randrange(0, maxops + 1), writer_bias=writer_bias)
         cases.append(c)
     return cases
@@ -352,7 +358,7 @@ def eval_vcase(c, out):
         return p04, p17, None
     if out['init'] != 'ok':
         return [{'what': 'valid descriptor chain refused: %s' % out['init'], 'step': None}], [], None
-    spec = VSpec(c['seed'], c['descs'])
+    spec = VSpec(c['seed'], c['descs'], c.get('dirty0', ()))
     o0 = out['obs'][0]
     if (o0[1], o0[2], o0[3], o0[4]) != (len(spec.rd[0][0]), 0, len(spec.wr[0][0]), 0):
         p04.append({'what': 'initial available/consumed counters differ from the chain lengths', 'step': 0, 'got': o0[1:5]})
@@ -385,7 +391,8 @@ def eval_vcase(c, out):
         if not spec.dirty <= got_d:
             p17.append({'what': 'pages of consumed-for-write ranges not marked dirty: %s' % sorted(spec.dirty - got_d)[:6], 'sig': {'kind': 'unmarked'}})
         if not got_d <= spec.dirty:
-            p17.append({'what': 'pages marked dirty although nothing was written to them: %s' % sorted(got_d - spec.dirty)[:6], 'sig': {'kind': 'overmarked'}})
+            p17.append({'what': 'pages newly marked dirty although nothing was written to them: %s' % sorted(got_d - spec.dirty)[:6], 'sig': {'kind': 'overmarked'}})
+        if p17: p17[0]['initial_dirty_pages'] = sorted(spec.dirty0)
     shape = (tuple(sorted(set((l, k) for a, l, k in c['descs']))), tuple(sorted(set(o[0] for o in c['ops']))))
     return p04, p17, shape
 
@@ -715,3 +722,64 @@ def coqchk(prop, ev, broken):
     ev.cov['coqchk'] = 'ok' if ok else 'failed'
     if not ok: broken.append({'kind': 'proof', 'name': 'coqchk Props/%s.vo' % prop, 'log': out[-1500:]})
     return ok
+
+# ------------------------------------------------------------------ C17: long-lived dirty logs, multi-page writes inside one segment
+def _big_src(rng, n):
+    return rdata(rng, n)
+
+def _wr_op(rng, i, n, short=False):
+    """one operation that stores n bytes through writer i: write / write_vectored / write_from(_at) / write_all_from"""
+    k = rng.choice('wvffflA')
+    if k == 'w': return ('w', i, _big_src(rng, n))
+    if k == 'v':
+        a = rng.randrange(n + 1)
+        return ('v', i, [rdata(rng, a), b'', rdata(rng, n - a)])
+    if k == 'A': return ('A', i, n, rng.choice('fl'), _big_src(rng, n))
+    kind = {'f': rng.choice('fa'), 'l': 'l'}[k]
+    return ('f', i, n + (3 if short else 0), kind, _big_src(rng, n))
+
+def GDslice(d, a, b):
+    return bytes(d[a:b])          # a plain byte string (spelled out in the Coq case; only used for small pieces)
+
+def gen_dirty_case(rng):
+    """writable segment of 3-5 pages; sub-writers written out of order; initial dirty log non-empty / adversarial"""
+    regions = rng.choice(LAYOUTS); (ab, az) = regions[0]
+    npg = rng.choice([3, 3, 4, 5])
+    start = ab + rng.choice([0, 1, 100, 2000, 4000, 4095])
+    ln = rng.choice([npg * PS - (start % PS) - rng.choice([0, 1, 100, 4000]), (npg - 1) * PS + rng.choice([2, 100, 4000])])
+    ln = max(2 * PS + 2, min(ln, ab + az - start - 64))
+    descs = []
+    bb, bz = regions[1]
+    if rng.random() < 0.5: descs.append((bb + rng.choice([0, 5, 4090]), rng.choice([8, 40, 64]), 'r'))
+    pattern = rng.choice(['split3', 'split3', 'single', 'neighbours', 'mixed'])
+    seed = rng.randrange(256)
+    if pattern == 'neighbours':
+        # two small writable descriptors that share the end pages of the big one and come first
+        pre = (start, 8, 'w'); big = (start + 8 + rng.choice([0, 30]), ln - 100, 'w'); post = (big[0] + big[1] + rng.choice([0, 10]), 8, 'w')
+        descs += [pre, post, big]
+        ops = [_wr_op(rng, 0, 8), _wr_op(rng, 0, 8), _wr_op(rng, 0, big[1] - rng.choice([0, 1, 50]), short=rng.random() < 0.3)]
+    else:
+        descs.append((start, ln, 'w'))
+        if rng.random() < 0.3: descs.append((bb + 200, rng.choice([0, 16, 100]), 'w'))
+        if pattern == 'split3':
+            h = rng.choice([1, 16, 40, 200]); t = rng.choice([1, 8, 100, 300])
+            body = ln - h - t
+            ops = [('p', 0, h), ('p', 1, body)]                      # writer 0 = header, 1 = payload, 2 = trailer (+ any later descriptor)
+            first = [_wr_op(rng, 2, t), _wr_op(rng, 0, h)]
+            if rng.random() < 0.5: first.reverse()
+            ops += first + [_wr_op(rng, 1, body - rng.choice([0, 0, 1, 500]), short=rng.random() < 0.3)]
+        elif pattern == 'single':
+            ops = [_wr_op(rng, 0, ln - rng.choice([0, 1, 200, 4096]))]
+        else:
+            a = rng.choice([1, 100, 4000]); ops = [_wr_op(rng, 0, a), _wr_op(rng, 0, ln - a - rng.choice([0, 5]))]
+            if rng.random() < 0.5: ops.insert(0, ('r', 0, 3) if any(d[2] == 'r' for d in descs) else ('c', 0))
+    # initial dirty log
+    allp = [p for b, z in regions for p in range(b // PS, (b + z) // PS)]
+    spec = VSpec(seed, descs)
+    for op in ops: spec.apply(op)
+    mode = rng.choice(['ends', 'ends', 'ends', 'none', 'all', 'alt', 'random'] if pattern != 'split3' else ['none', 'none', 'ends', 'random', 'alt'])
+    if mode == 'ends':      # exactly the end pages of each multi-page store are already dirty, everything else clean
+        d0 = sorted(set(p for w in spec.wlog if w[-1] // PS - w[0] // PS >= 2 for p in (w[0] // PS, w[-1] // PS)))
+    else:
+        d0 = {'none': [], 'all': allp, 'alt': allp[rng.randrange(2)::2], 'random': [p for p in allp if rng.random() < 0.4]}[mode]
+    return {'seed': seed, 'regions': regions, 'descs': descs, 'bad': None, 'ops': ops, 'dirty0': d0, 'pattern': pattern, 'dirty_mode': mode}
